@@ -539,6 +539,7 @@ func (d *Driver) exec(st *Step, g string) {
 			})),
 			iscp.WithUpstreamReceiveAckHooker(iscp.ReceiveAckHookerFunc(func(id uuid.UUID, r iscp.UpstreamChunkResult) {
 				d.rec.Log("HookAfter", "sid", d.b.SidOf(id), "seq", int(r.SequenceNumber), "code", int(r.ResultCode))
+				d.b.HandlerHold("HookAfter") // an application hook may take its time (step holdHandler)
 				if st.HookReenter {
 					if u := d.up(obj); u != nil {
 						s := u.State()
